@@ -563,10 +563,21 @@ fn parse_entity_def<'input>(
     }
 }
 
+// Skips a markup declaration that is not processed.
+// A '>' inside a quoted literal (a default attribute value,
+// a system or public identifier) does not end the declaration.
 fn consume_decl(s: &mut Stream) -> Result<()> {
-    s.skip_bytes(|c| c != b'>');
-    s.consume_byte(b'>')?;
-    Ok(())
+    loop {
+        s.skip_bytes(|c| c != b'>' && c != b'"' && c != b'\'');
+        let c = s.curr_byte()?;
+        s.advance(1);
+        if c == b'>' {
+            return Ok(());
+        }
+
+        s.skip_bytes(|b| b != c);
+        s.consume_byte(c)?;
+    }
 }
 
 // element ::= EmptyElemTag | STag content ETag
